@@ -27,7 +27,8 @@ EXPLANATION = (
     'clamp before handing the limits to the search; (3) in negaScout the poll block (counter <= 0 -> shouldStop -> throw) dominates every '
     'recursive descent, every make-move in negaScout / quiesce / the root loop is followed by a decrement of the poll counter, the poll '
     'interval is at most 1000 nodes, and shouldStop returns true exactly on elapsed >= the limit selected by searchNeedMoreTime.'
-    ' The limit shouldStop compares the elapsed time with is, on every path, bounded by the hard limit (hard, soft, or min(.., hard)).')
+    ' The limit shouldStop compares the elapsed time with is, on every path, bounded by the hard limit (hard, soft, or min(.., hard)).'
+    ' Added later; (4) on every go path the option queue is drained (stopThread -> waitStop -> waitOptionsSet) before the protocol thread reads option values in computeTimeLimit / startThread.')
 UNDECIDED = ('wall-clock latency and the virtual-clock bound "within one polling interval" (timing is not a static quantity); the '
              'behaviour of the search between two polls.')
 ASSUMPTIONS = ['input domain of the property: wtime/btime 1..10^7 ms, inc 0..10^5, movestogo 0..100, BufferTime and the time-usage parameters inside their declared Param<> ranges',
@@ -50,6 +51,7 @@ def run(fb, rep, tier):
     c1_arith(fb, rep)
     c2_order(fb, rep)
     c3_polling(fb, rep)
+    c4_options_before_limits(fb, rep)
 
 
 def _strip(t):
@@ -568,3 +570,52 @@ def nonpositive_clock(fb, rep, clause):
             except Undecided as ex:
                 rep.broken(clause, 'interval engine (non-positive clock): %s' % ex)
     rep.floor(clause, 'final clock-path limit definitions', n, 2)
+
+
+# ----------------------------------------------------------------------------- .4
+
+def c4_options_before_limits(fb, rep):
+    """K2: option values are changed by the engine thread (Parameters::set is confined to it, C05.6) from a queue the
+    protocol thread fills.  The protocol thread reads options itself when it handles `go` (BufferTime and the other
+    time-management parameters in computeTimeLimit, strength / MultiPV / book options in startThread).  So on every go
+    path the queue must have been drained - waitOptionsSet(), after the running search was stopped - before the first
+    such read; otherwise `setoption name BufferTime ...` followed at once by `go` budgets with the old buffer."""
+    clause = 'C06.4'
+    st = fb.find1('EngineControl::stopThread')
+    if rep.need(clause, st, 'EngineControl::stopThread') is None:
+        return
+    w = st.path_avoiding((st.entry, -1), R.at_exit, R.is_named_call('EngineMainThread::waitOptionsSet'))
+    rep.ob(clause, 'K2 must-pass-through', 'stopThread waits until every queued option was applied, on every path', w is None, st.where,
+           '' if w is None else 'path without waitOptionsSet: ' + ' -> '.join('B%s@%s' % x for x in w[-4:]), st.sname)
+    R.dominated_by(rep, st, clause, 'stopThread: the running search is stopped before waiting for the option queue (else the wait blocks the protocol thread during a search)',
+                   R.is_named_call('EngineMainThread::waitOptionsSet'), R.is_named_call('EngineMainThread::waitStop'))
+
+    def reads_options(fn, depth=0, seen=None):
+        seen = seen if seen is not None else set()
+        if fn is None or not fn.has_cfg or fn.key in seen or depth > 3:
+            return False
+        seen.add(fn.key)
+        for _, _, e in fn.events():
+            for n in walk(e):
+                if n.get('k') == 'var' and str(n.get('q', '')).startswith('UciParams::'):
+                    return True
+                if n.get('k') == 'call' and n.get('repo') and cname(n).startswith('EngineControl::') and reads_options(fb.find1(cname(n)), depth + 1, seen):
+                    return True
+        for bid, blk in fn.blocks.items():
+            c = (blk.get('term') or {}).get('cond')
+            for n in (walk(c) if c is not None else []):
+                if n.get('k') == 'var' and str(n.get('q', '')).startswith('UciParams::'):
+                    return True
+        return False
+    n = 0
+    for nm in ('EngineControl::startSearch', 'EngineControl::startPonder'):
+        f = fb.find1(nm)
+        if rep.need(clause, f, nm) is None:
+            continue
+        for b, i, e in f.events():
+            if e.get('k') == 'call' and e.get('repo') and cname(e).startswith('EngineControl::') and cname(e) != 'EngineControl::stopThread' and reads_options(fb.find1(cname(e))):
+                n += 1
+                w = f.path_avoiding((f.entry, -1), lambda x, _e=e: x is _e, R.is_named_call('EngineControl::stopThread'))
+                rep.ob(clause, 'K2 must-precede', '%s: %s reads option values only after the option queue was drained (stopThread)' % (nm.split('::')[-1], cname(e).split('::')[-1]),
+                       w is None, R.site(f, e), '', f.sname)
+    rep.floor(clause, 'option-reading calls on the go paths', n, 4)
